@@ -11,12 +11,23 @@ Local Open Scope Z_scope.
 From Coq Require Import Permutation Sorted.
 From DSW Require Import ShuffleProofs WalkProofs.
 
+(* PROVED (exactly as stated in the task; is_faster = False):  decode_normal_gen_ok, decode_normal_gen_raise (end of file).
+   Notes: the check comparison `vt_check != set_vt(dna_sequence, len(vt_check))` (set_vt_callee with n = length c >= 1; string
+   inequality is negb (listZ_eqb ..)); set_vt may raise ValueError on a foreign character, which decode propagates, as the model
+   does.  The first for loop over enumerate(dna_sequence) is Coder.decode_walk (lemma walk_loop, one character = wstep /
+   body_step; saved_values accumulates (out_degree, remainder) pairs as VTuple [VInt; VInt] by append, i.e. in strand order);
+   `nucleotide in used_nucleotides` / `.index` on the list of one-character strings correspond to nuc_index c / first_pos j used 0
+   (index_of_nucs); `where(argsort(..) == remainder)[0][0]` is unshuffle_digit (eval_unshuffle: an empty `where` is IndexError on
+   both sides); the second loop (TPair target) is Coder.horner_str (horner_loop); number_to_bit gets its fuel from
+   dval (horner_str saved) < 4 ^ length saved (horner_fold_bound) and OperationGenProofs.fuel_str_bound.  The proof follows the
+   model step by step, so an out-of-range vertex (IndexError in the model) is IndexError in the program too: the hypothesis
+   0 <= v < length acc of the statements is not used. *)
+
 Definition vt_ok (vt : option (list Z)) (fuel : nat) : Prop :=
   match vt with None => True | Some c => c <> [] /\ (2 * length c < fuel)%nat end.
 
 (* ---- tactics ------------------------------------------------------------------------------------------------------ *)
 Ltac lk := repeat (rewrite lookup_update_same || (rewrite lookup_update_other by discriminate)).
-Ltac step := cbn [exec eval lift seq rbind assign items bind_tuple truthy negb].
 
 (* ---- lists --------------------------------------------------------------------------------------------------------- *)
 Lemma nthZ_map {A B} (f : A -> B) : forall l n, nthZ (map f l) n = option_map f (nthZ l n).
@@ -434,6 +445,8 @@ Section Walk.
   Proof. reflexivity. Qed.
   Lemma exec_raise e en : exec ce fuel (SRaise e) en = OExn e.
   Proof. reflexivity. Qed.
+  Lemma exec_skip en : exec ce fuel SSkip en = ONormal en.
+  Proof. reflexivity. Qed.
   Lemma cmp_gt1 n : cmp_vals CGt (VInt n) (VInt 1) = Ret (VBool (1 <? n)).
   Proof. reflexivity. Qed.
   Lemma cmp_eq1 n : cmp_vals CEq (VInt n) (VInt 1) = Ret (VBool (n =? 1)).
@@ -478,6 +491,9 @@ Section Walk.
     destruct (py_get row jj); reflexivity.
   Qed.
 
+  Lemma sh_cases : sh = None \/ exists t, sh = Some t.
+  Proof. clear Hsh. destruct sh as [t|]; [right; exists t; reflexivity|left; reflexivity]. Qed.
+
   Lemma many_step en v sv i c row : inv en v sv -> lookup "location" en = Ret (VInt i) -> lookup "nucleotide" en = Ret (VStr [c]) ->
     lookup "used_indices" en = Ret (varr (used_indices row)) -> py_get acc v = Ok row ->
     (2 <= length (used_indices row))%nat ->
@@ -509,10 +525,12 @@ Section Walk.
     destruct (first_pos_some _ _ _ _ Ef) as (n & Hn & Hrem & _).
     assert (Hgood : forall rem', unshuffle_digit sh v used rem = Ok rem' -> good (Z.of_nat (length used), rem')).
     { intros rem' E. destruct (unshuffle_shuffle sh v used rem ltac:(lia) rem' E) as [Hb _]. unfold good. cbn [fst snd]. lia. }
-    destruct sh as [t|] eqn:Esh.
-    - cbn [v_table]. unfold varr2 at 1. cbn [builtin1_val rbind truthy negb lift].
+    destruct sh_cases as [Esh|[t Esh]];
+      [replace (v_table sh) with VNone by (rewrite Esh; reflexivity)
+      |replace (v_table sh) with (varr2 t) by (rewrite Esh; reflexivity)].
+    2:{ unfold varr2. cbn [builtin1_val rbind truthy negb lift].
       rewrite exec_assign, (eval_unshuffle _ t v used rem) by (lk; assumption || reflexivity).
-      destruct (unshuffle_digit (Some t) v used rem) as [rem'|e|] eqn:Eun; cbn [res_of bind lift]; [|reflexivity|exact I].
+      destruct (unshuffle_digit sh v used rem) as [rem'|e|] eqn:Eun; cbn [res_of bind lift]; [|reflexivity|exact I].
       cbn [assign seq].
       rewrite (many_tail _ v sv used row c jj rem') by
         (first [repeat apply inv_upd; (assumption || discriminate) | lk; assumption || reflexivity | assumption]).
@@ -520,13 +538,311 @@ Section Walk.
       eexists. split; [reflexivity|]. split; [|split].
       + unfold inv. lk. repeat split; assumption.
       + constructor; [apply Hgood; reflexivity|constructor].
-      + lk. exact HL.
-    - cbn [v_table builtin1_val rbind truthy negb lift exec seq bind unshuffle_digit].
+      + lk. exact HL. }
+    assert (Eun : unshuffle_digit sh v used rem = Ok rem) by (rewrite Esh; reflexivity). rewrite Eun.
+    cbn [builtin1_val rbind truthy negb lift bind]. rewrite exec_skip. cbn [seq].
       rewrite (many_tail _ v sv used row c jj rem) by
         (first [repeat apply inv_upd; (assumption || discriminate) | lk; assumption || reflexivity | assumption]).
       destruct (py_get row jj) as [nxt|e|] eqn:En; cbn [bind]; [|rewrite (py_get_raise _ _ _ En); reflexivity|exact I].
       eexists. split; [reflexivity|]. split; [|split].
       + unfold inv. lk. repeat split; assumption.
-      + constructor; [apply Hgood; reflexivity|constructor].
+      + constructor; [apply Hgood; assumption|constructor].
       + lk. exact HL.
   Qed.
+
+  Lemma cmp_eq_nuc c j : cmp_vals CEq (VStr [c]) (nucv j) = Ret (VBool (c =? nuc_char j)).
+  Proof. unfold nucv, cmp_vals, cmp_scalar. cbn [mixes_bool is_arr orb val_eqb listZ_eqb]. rewrite andb_true_r. reflexivity. Qed.
+
+  Lemma one_step en v sv i c row j : inv en v sv -> lookup "location" en = Ret (VInt i) -> lookup "nucleotide" en = Ret (VStr [c]) ->
+    lookup "used_indices" en = Ret (varr [j]) -> py_get acc v = Ok row -> 0 <= j < 4 ->
+    match (if c =? nuc_char j then nxt <- py_get row j ;; Ok (@None (Z * Z), nxt) else Raise ValueError) with
+    | Ok (o, nxt) => exists en', exec ce fuel branch_one en = ONormal en' /\ inv en' nxt (sv ++ optv o) /\ Forall good (optl o)
+                                 /\ lookup "location" en' = Ret (VInt i)
+    | Raise e => exec ce fuel branch_one en = OExn e
+    | OutOfFuel => True
+    end.
+  Proof.
+    intros Hinv HL HC HU Er Hj. pose proof Hinv as (HA & HV & HN & HS & HSV & HVB & HD & HQ & HB).
+    unfold branch_one. rewrite exec_seq, exec_assign. cbn [eval]. rewrite HN, HU. cbn [rbind].
+    change (index_val (varr [j]) (VInt 0)) with (Ret (VInt j)). cbn [rbind]. rewrite (index_nuc j Hj).
+    cbn [lift assign seq]. rewrite exec_if. cbn [eval]. lk. rewrite HC. cbn [rbind]. rewrite cmp_eq_nuc. cbn [lift truthy].
+    destruct (c =? nuc_char j) eqn:Ec; [|reflexivity].
+    assert (Ej : nuc_index c = Some j) by (replace c with (nuc_char j) by lia; apply nuc_index_char; exact Hj).
+    rewrite exec_assign, (eval_next _ v row c j) by (lk; assumption).
+    destruct (py_get row j) as [nxt|e|] eqn:En; cbn [bind lift assign]; [|rewrite (py_get_raise _ _ _ En); reflexivity|exact I].
+    eexists. split; [reflexivity|]. cbn [optv optl]. rewrite app_nil_r. split; [|split].
+    - unfold inv. lk. repeat split; assumption.
+    - constructor.
+    - lk. exact HL.
+  Qed.
+
+  Lemma body_step en v sv i c : inv en v sv -> lookup "location" en = Ret (VInt i) -> lookup "nucleotide" en = Ret (VStr [c]) ->
+    match wstep c v with
+    | Ok (o, nxt) => exists en', exec ce fuel walk_body en = ONormal en' /\ inv en' nxt (sv ++ optv o) /\ Forall good (optl o)
+    | Raise e => exec ce fuel walk_body en = OExn e
+    | OutOfFuel => True
+    end.
+  Proof.
+    intros Hinv HL HC. pose proof Hinv as (HA & HV & HN & HS & HSV & HVB & HD & HQ & HB).
+    unfold wstep, walk_body. rewrite exec_seq, exec_assign, (eval_used en v HA HV).
+    destruct (py_get acc v) as [row|e|] eqn:Er; cbn [bind lift seq]; [|rewrite (py_get_raise _ _ _ Er); reflexivity|exact I].
+    destruct (row_shape v row Er) as [Hl4 Hrng]. destruct (used_shape row Hl4) as (Hur & Hun & Hup).
+    cbn [assign seq]. rewrite exec_seq, exec_if. cbn [eval]. lk. cbn [rbind]. rewrite blen_varr. cbn [rbind]. rewrite cmp_gt1.
+    cbn [lift truthy].
+    set (en1 := update "used_indices" (varr (used_indices row)) en).
+    assert (Hinv1 : inv en1 v sv) by (apply inv_upd; (assumption || discriminate)).
+    assert (HL1 : lookup "location" en1 = Ret (VInt i)) by (unfold en1; lk; exact HL).
+    assert (HC1 : lookup "nucleotide" en1 = Ret (VStr [c])) by (unfold en1; lk; exact HC).
+    assert (HU1 : lookup "used_indices" en1 = Ret (varr (used_indices row))) by (unfold en1; lk; reflexivity).
+    clearbody en1.
+    assert (Hfin : forall (r : result (option (Z * Z) * Z)) (st : stmt),
+      match r with
+      | Ok (o, nxt) => exists en', exec ce fuel st en1 = ONormal en' /\ inv en' nxt (sv ++ optv o) /\ Forall good (optl o)
+                                 /\ lookup "location" en' = Ret (VInt i)
+      | Raise e => exec ce fuel st en1 = OExn e
+      | OutOfFuel => True
+      end ->
+      match r with
+      | Ok (o, nxt) => exists en', seq (exec ce fuel st en1) (exec ce fuel verbose_stmt) = ONormal en' /\ inv en' nxt (sv ++ optv o) /\ Forall good (optl o)
+      | Raise e => seq (exec ce fuel st en1) (exec ce fuel verbose_stmt) = OExn e
+      | OutOfFuel => True
+      end).
+    { intros r st H. destruct r as [[o nxt]|e|]; [|rewrite H; reflexivity|exact I].
+      destruct H as (en' & E & Hi & Hg & Hl). rewrite E. cbn [seq].
+      pose proof Hi as (_ & _ & _ & _ & _ & HVB' & HD' & _ & _).
+      rewrite (verbose_ok en' i HVB' Hl HD'). exists en'. split; [reflexivity|split; assumption]. }
+    destruct (used_indices row) as [|j [|j2 r]] eqn:Eu.
+    - change (1 <? Z.of_nat (length (@nil Z))) with false. cbv iota. rewrite exec_if. cbn [eval]. rewrite HU1. reflexivity.
+    - change (1 <? Z.of_nat (length [j])) with false. cbv iota. rewrite exec_if. cbn [eval]. rewrite HU1. cbn [rbind].
+      rewrite blen_varr. cbn [rbind lift truthy]. rewrite cmp_eq1. cbn [lift truthy]. change (Z.of_nat (length [j]) =? 1) with true. cbv iota.
+      apply Hfin. apply (one_step en1 v sv i c row j); try assumption. inversion Hur; assumption.
+    - replace (1 <? Z.of_nat (length (j :: j2 :: r))) with true by (cbn [length]; lia).
+      rewrite <- Eu. apply Hfin. apply (many_step en1 v sv i c row); try assumption; rewrite Eu; [exact HU1|cbn [Datatypes.length]; lia].
+  Qed.
+
+  Lemma map_pairv_optl o : map pairv (optl o) = optv o.
+  Proof. destruct o; reflexivity. Qed.
+
+  Lemma walk_loop : forall s v sv i en, inv en v sv ->
+    match decode_walk s acc v sh with
+    | Ok rest => exists en' v', for_loop ce fuel (TTuple ["location"; "nucleotide"]) walk_body (enumerate_from i (chars s)) en = ONormal en'
+                   /\ inv en' v' (sv ++ map pairv rest) /\ Forall good rest /\ (length rest <= length s)%nat
+    | Raise e => for_loop ce fuel (TTuple ["location"; "nucleotide"]) walk_body (enumerate_from i (chars s)) en = OExn e
+    | OutOfFuel => True
+    end.
+  Proof.
+    induction s as [|c t IH]; intros v sv i en Hinv.
+    - cbn [decode_walk]. exists en, v. cbn [map]. rewrite app_nil_r. split; [reflexivity|]. split; [exact Hinv|]. split; [constructor|apply le_n].
+    - rewrite decode_walk_cons. unfold chars. cbn [map enumerate_from for_loop]. fold (chars t).
+      cbn [assign items lift bind_tuple seq].
+      set (en2 := update "nucleotide" (VStr [c]) (update "location" (VInt i) en)).
+      assert (Hinv2 : inv en2 v sv) by (unfold en2; repeat apply inv_upd; (assumption || discriminate)).
+      assert (HL2 : lookup "location" en2 = Ret (VInt i)) by (unfold en2; lk; reflexivity).
+      assert (HC2 : lookup "nucleotide" en2 = Ret (VStr [c])) by (unfold en2; lk; reflexivity).
+      clearbody en2.
+      pose proof (body_step en2 v sv i c Hinv2 HL2 HC2) as H.
+      destruct (wstep c v) as [[o nxt]|e|]; cbn [bind]; [|rewrite H; reflexivity|exact I].
+      destruct H as (en' & E & Hi & Hg). rewrite E. cbn [seq snd fst].
+      specialize (IH nxt (sv ++ optv o)%list (i + 1) en' Hi).
+      destruct (decode_walk t acc nxt sh) as [rest|e|]; cbn [bind]; [|exact IH|exact I].
+      destruct IH as (en'' & v' & E2 & Hi2 & Hg2 & Hlen). exists en'', v'. split; [exact E2|].
+      split; [rewrite map_app, map_pairv_optl, app_assoc; exact Hi2|].
+      split; [apply Forall_app; split; assumption|].
+      rewrite app_length. cbn [Datatypes.length]. destruct o; cbn [optl Datatypes.length]; lia.
+  Qed.
+End Walk.
+
+(* ---- the second loop: Horner over the saved pairs ------------------------------------------------------------------------ *)
+Lemma canonical_digits_ok d : canonical d -> digits_ok d.
+Proof.
+  intro H. apply canonical_digits in H. unfold digits_ok. eapply Forall_impl; [|exact H].
+  unfold digit. intros; lia.
+Qed.
+
+Definition hstep (q : list Z) (dn : Z * Z) : list Z := calculus_addition (calculus_multiplication q (fst dn)) (snd dn).
+
+Lemma horner_fold_bound : forall l q, Forall good l -> canonical q ->
+  canonical (fold_left hstep l q) /\ dval (fold_left hstep l q) + 1 <= (dval q + 1) * 4 ^ Z.of_nat (length l).
+Proof.
+  induction l as [|[d n] l IH]; intros q Hg Hc.
+  - cbn [fold_left length]. split; [exact Hc|]. change (4 ^ Z.of_nat 0) with 1. lia.
+  - inversion Hg as [|? ? [Hd Hn] Hg']; subst. cbn [fst snd] in Hd, Hn. cbn [fold_left].
+    destruct (mul_correct q d Hc ltac:(unfold digit; lia)) as [Hmc Hmv].
+    destruct (add_correct _ n Hmc ltac:(unfold digit; lia)) as [Hac Hav].
+    destruct (IH (hstep q (d, n)) Hg' Hac) as [Hc' Hb]. split; [exact Hc'|].
+    unfold hstep in Hb at 3. cbn [fst snd] in Hb. rewrite Hav, Hmv in Hb.
+    cbn [length]. rewrite Nat2Z.inj_succ, Z.pow_succ_r by lia.
+    pose proof (canonical_nonneg q Hc) as Hq0.
+    assert (Hp : 0 < 4 ^ Z.of_nat (length l)) by (apply Z.pow_pos_nonneg; lia).
+    assert (Hs : dval q * d + n + 1 <= 4 * (dval q + 1)) by nia.
+    nia.
+Qed.
+
+Lemma to_radix_str_no_raise : forall f b d a e, to_radix_str f b d a <> Raise e.
+Proof.
+  induction f as [|f IH]; intros b d a e; cbn [to_radix_str]; destruct (is_zero_str d); try discriminate.
+  destruct (calculus_division d b) as [q r]. apply IH.
+Qed.
+
+Lemma number_to_bit_str_no_raise d len e : number_to_bit_str d len <> Raise e.
+Proof.
+  unfold number_to_bit_str. destruct (to_radix_str (fuel_str d) 2 d []) as [one|e'|] eqn:E; cbn [bind]; try discriminate.
+  exfalso. exact (to_radix_str_no_raise _ _ _ _ _ E).
+Qed.
+
+Lemma np_array_vints r : builtin1_val BNpArray (vints r) = Ret (varr r).
+Proof. unfold builtin1_val, vints. rewrite forallb_map_VInt. reflexivity. Qed.
+
+Section Main.
+  Variable ce : string -> list val -> res val.
+  Variable fuel : nat.
+  Hypothesis Hce : callees_ok ce fuel.
+  Hypothesis Hvt : set_vt_callee ce fuel.
+
+  Lemma ce_mul : forall ds b, digits_ok ds -> 0 <= b <= 9 ->
+    ce "calculus_multiplication" [dstr ds; dstr [b]] = Ret (dstr (calculus_multiplication ds b)).
+  Proof. exact (proj1 (proj2 (proj2 Hce))). Qed.
+  Lemma ce_add : forall ds b, digits_ok ds -> 0 <= b <= 9 ->
+    ce "calculus_addition" [dstr ds; dstr [b]] = Ret (dstr (calculus_addition ds b)).
+  Proof. exact (proj1 (proj2 (proj2 (proj2 Hce)))). Qed.
+  Lemma ce_n2b : forall d len r, digits_ok d -> d <> [] -> number_to_bit_str d len = Ok r -> (fuel_str d < fuel)%nat ->
+    ce "number_to_bit" [dstr d; VInt len] = Ret (vints r).
+  Proof. exact (proj1 (proj2 (proj2 (proj2 (proj2 Hce))))). Qed.
+
+  Lemma horner_loop vb : forall l i q en, Forall good l -> canonical q ->
+    lookup "quotient" en = Ret (dstr q) -> lookup "bit_length" en = Ret vb ->
+    exists en', for_loop ce fuel (TPair "location" ["out_degree"; "number"]) horner_body (enumerate_from i (map pairv l)) en = ONormal en'
+      /\ lookup "quotient" en' = Ret (dstr (fold_left hstep l q)) /\ lookup "bit_length" en' = Ret vb.
+  Proof.
+    induction l as [|[d n] l IH]; intros i q en Hg Hc HQ HB.
+    - exists en. cbn [fold_left]. split; [reflexivity|split; assumption].
+    - inversion Hg as [|? ? [Hd Hn] Hg']; subst. cbn [fst snd] in Hd, Hn.
+      cbn [map enumerate_from for_loop]. unfold pairv at 1. cbn [fst snd assign items lift bind_tuple seq].
+      unfold horner_body at 1. cbn [exec eval]. lk. rewrite HQ. cbn [rbind builtin1_val]. rewrite (to_str_digit d) by lia. cbn [rbind].
+      change (VStr [dchr d]) with (dstr [d]). rewrite ce_mul by (try apply canonical_digits_ok; auto; lia).
+      destruct (mul_correct q d Hc ltac:(unfold digit; lia)) as [Hmc _].
+      cbn [lift assign seq]. lk. cbn [rbind builtin1_val]. rewrite (to_str_digit n) by lia. cbn [rbind].
+      change (VStr [dchr n]) with (dstr [n]). rewrite ce_add by (try apply canonical_digits_ok; auto; lia).
+      destruct (add_correct _ n Hmc ltac:(unfold digit; lia)) as [Hac _].
+      cbn [lift assign seq fold_left]. apply IH; auto; lk; auto.
+  Qed.
+
+  Lemma exec_return e en : exec ce fuel (SReturn e) en = lift (eval ce en e) OReturn.
+  Proof. reflexivity. Qed.
+
+  Lemma normal_run fp en s L acc v sh verbose :
+    acc_shape acc -> table_shape (length acc) sh -> (4 * length s + 16 <= fuel)%nat ->
+    lookup "dna_sequence" en = Ret (VStr s) -> lookup "bit_length" en = Ret (VInt L) ->
+    lookup "accessor" en = Ret (varr2 acc) -> lookup "vertex_index" en = Ret (VInt v) ->
+    lookup "nucleotides" en = Ret (VStr ACGT) -> lookup "shuffles" en = Ret (v_table sh) ->
+    lookup "verbose" en = Ret (VBool verbose) -> lookup "is_faster" en = Ret (VBool false) ->
+    match (saved <- decode_walk s acc v sh ;; number_to_bit_str (horner_str saved) L) with
+    | Ok r => seq (exec ce fuel (SIf (ENot (EVar "is_faster"%string)) normal_part fp) en)
+                  (exec ce fuel (SReturn (EVar "binary_message"%string))) = OReturn (varr r)
+    | Raise e => seq (exec ce fuel (SIf (ENot (EVar "is_faster"%string)) normal_part fp) en)
+                     (exec ce fuel (SReturn (EVar "binary_message"%string))) = OExn e
+    | OutOfFuel => True
+    end.
+  Proof.
+    intros Hacc Hsh Hfuel HD HB HA HV HN HS HVB HF.
+    rewrite exec_if. cbn [eval]. rewrite HF. cbn [rbind truthy negb lift]. unfold normal_part.
+    rewrite exec_seq, (exec_assign ce fuel). cbn [eval rbind lift assign items bind_tuple seq].
+    set (en1 := update "saved_values" (VList []) (update "quotient" (VStr [48]) en)).
+    assert (Hinv1 : inv acc sh verbose s (VStr [48]) (VInt L) en1 v []).
+    { unfold inv, en1. lk. repeat split; assumption. }
+    clearbody en1.
+    rewrite exec_seq, exec_for. cbn [eval]. destruct Hinv1 as (HA1 & HV1 & HN1 & HS1 & HSV1 & HVB1 & HD1 & HQ1 & HB1).
+    rewrite HD1. cbn [rbind builtin1_val items lift].
+    pose proof (walk_loop ce fuel acc sh verbose s (VStr [48]) (VInt L) Hacc Hsh s v [] 0 en1
+                  (conj HA1 (conj HV1 (conj HN1 (conj HS1 (conj HSV1 (conj HVB1 (conj HD1 (conj HQ1 HB1))))))))) as H.
+    destruct (decode_walk s acc v sh) as [saved|e|]; cbn [bind]; [|rewrite H; reflexivity|exact I].
+    destruct H as (en' & v' & E & Hi & Hg & Hlen). rewrite E. cbn [seq app] in *.
+    destruct Hi as (HA2 & HV2 & HN2 & HS2 & HSV2 & HVB2 & HD2 & HQ2 & HB2).
+    rewrite exec_seq, exec_for. cbn [eval]. rewrite HSV2. cbn [rbind builtin1_val items lift]. rewrite <- map_rev.
+    destruct (horner_loop (VInt L) (rev saved) 0 [0] en' (Forall_rev Hg) canonical_0 HQ2 HB2) as (en'' & E2 & HQ3 & HB3).
+    rewrite E2. cbn [seq]. rewrite (exec_assign ce fuel). cbn [eval]. rewrite HQ3, HB3. cbn [rbind].
+    destruct (horner_fold_bound (rev saved) [0] (Forall_rev Hg) canonical_0) as [Hc Hbd].
+    change (fold_left hstep (rev saved) [0]) with (horner_str saved) in *.
+    destruct (number_to_bit_str (horner_str saved) L) as [r|e|] eqn:En; [|exfalso; exact (number_to_bit_str_no_raise _ _ _ En)|exact I].
+    rewrite (ce_n2b _ L r (canonical_digits_ok _ Hc) (proj1 Hc) En).
+    - cbn [rbind]. rewrite np_array_vints. cbn [lift assign seq]. rewrite exec_return. cbn [eval]. lk. reflexivity.
+    - rewrite rev_length in Hbd. change (dval [0]) with 0 in Hbd.
+      assert (Hp : 4 ^ Z.of_nat (length saved) <= 4 ^ Z.of_nat (length s)) by (apply Z.pow_le_mono_r; lia).
+      pose proof (fuel_str_bound (horner_str saved) 4 (length s) ltac:(lia) Hc ltac:(lia)). lia.
+  Qed.
+
+  Lemma decode_run s L acc v vt sh verbose :
+    acc_shape acc -> 0 <= v < Z.of_nat (length acc) -> table_shape (length acc) sh -> vt_ok vt fuel ->
+    (4 * length s + 16 <= fuel)%nat ->
+    match Coder.decode s L acc v false vt sh with
+    | Ok r => run_fun ce fuel decode_def [VStr s; VInt L; varr2 acc; VInt v; VBool false; v_optstr vt; v_table sh; VBool verbose] = Ret (varr r)
+    | Raise e => run_fun ce fuel decode_def [VStr s; VInt L; varr2 acc; VInt v; VBool false; v_optstr vt; v_table sh; VBool verbose] = Exn e
+    | OutOfFuel => True
+    end.
+  Proof.
+    intros Hacc Hv Hsh Hvtok Hfuel. destruct decode_def_shape as [fp Ebody].
+    unfold run_fun. rewrite Ebody. cbn [params decode_def bind_params].
+    rewrite exec_seq, (exec_assign ce fuel).
+    cbn [eval lookup String.eqb Ascii.eqb Bool.eqb rbind lift assign items bind_tuple update seq].
+    rewrite exec_seq. unfold check_part. rewrite exec_if.
+    cbn [eval lookup String.eqb Ascii.eqb Bool.eqb rbind].
+    unfold Coder.decode.
+    assert (Hnormal : forall vc,
+      match (saved <- decode_walk s acc v sh ;; number_to_bit_str (horner_str saved) L) with
+      | Ok r => exec ce fuel (SSeq (SIf (ENot (EVar "is_faster"%string)) normal_part fp) (SReturn (EVar "binary_message"%string)))
+                  [("dna_sequence", VStr s); ("bit_length", VInt L); ("accessor", varr2 acc); ("start_index", VInt v);
+                   ("is_faster", VBool false); ("vt_check", vc); ("shuffles", v_table sh); ("verbose", VBool verbose);
+                   ("vertex_index", VInt v); ("nucleotides", VStr [65; 67; 71; 84]); ("monitor", VOpaque)] = OReturn (varr r)
+      | Raise e => exec ce fuel (SSeq (SIf (ENot (EVar "is_faster"%string)) normal_part fp) (SReturn (EVar "binary_message"%string)))
+                  [("dna_sequence", VStr s); ("bit_length", VInt L); ("accessor", varr2 acc); ("start_index", VInt v);
+                   ("is_faster", VBool false); ("vt_check", vc); ("shuffles", v_table sh); ("verbose", VBool verbose);
+                   ("vertex_index", VInt v); ("nucleotides", VStr [65; 67; 71; 84]); ("monitor", VOpaque)] = OExn e
+      | OutOfFuel => True
+      end).
+    { intro vc. rewrite exec_seq.
+      apply (normal_run fp _ s L acc v sh verbose); first [assumption | reflexivity]. }
+    destruct vt as [chk|]; cbn [v_optstr builtin1_val rbind truthy negb lift bind].
+    - destruct Hvtok as [Hne Hlen]. rewrite exec_if. cbn [eval lookup String.eqb Ascii.eqb Bool.eqb rbind builtin1_val].
+      assert (Hl1 : (1 <= length chk)%nat) by (destruct chk; [contradiction|cbn [Datatypes.length]; lia]).
+      rewrite (Hvt s (Z.of_nat (length chk))) by lia.
+      destruct (set_vt s (Z.of_nat (length chk))) as [c'|e|]; cbn [res_of_str bind rbind lift]; [|reflexivity|exact I].
+      change (cmp_vals CNe (VStr chk) (VStr c')) with (Ret (VBool (negb (listZ_eqb chk c')))). cbn [lift truthy].
+      rewrite (listZ_eqb_sym c' chk). destruct (listZ_eqb chk c'); cbn [negb].
+      + rewrite exec_skip. cbn [seq]. specialize (Hnormal (VStr chk)).
+        destruct (saved <- decode_walk s acc v sh ;; number_to_bit_str (horner_str saved) L) as [r|e|];
+          [rewrite Hnormal; reflexivity|rewrite Hnormal; reflexivity|exact I].
+      + rewrite (exec_raise ce fuel). reflexivity.
+    - rewrite exec_skip. cbn [seq]. specialize (Hnormal VNone).
+      destruct (saved <- decode_walk s acc v sh ;; number_to_bit_str (horner_str saved) L) as [r|e|];
+        [rewrite Hnormal; reflexivity|rewrite Hnormal; reflexivity|exact I].
+  Qed.
+End Main.
+
+Theorem decode_normal_gen_ok : forall ce fuel s L acc v vt sh verbose r,
+  callees_ok ce fuel -> set_vt_callee ce fuel ->
+  acc_shape acc -> 0 <= v < Z.of_nat (length acc) -> table_shape (length acc) sh -> vt_ok vt fuel ->
+  (4 * length s + 16 <= fuel)%nat ->
+  Coder.decode s L acc v false vt sh = Ok r ->
+  run_fun ce fuel decode_def [VStr s; VInt L; varr2 acc; VInt v; VBool false; v_optstr vt; v_table sh; VBool verbose]
+  = Ret (varr r).
+Proof.
+  intros ce fuel s L acc v vt sh verbose r Hce Hvt Hacc Hv Hsh Hvtok Hfuel E.
+  pose proof (decode_run ce fuel Hce Hvt s L acc v vt sh verbose Hacc Hv Hsh Hvtok Hfuel) as H.
+  rewrite E in H. exact H.
+Qed.
+
+Theorem decode_normal_gen_raise : forall ce fuel s L acc v vt sh verbose e,
+  callees_ok ce fuel -> set_vt_callee ce fuel ->
+  acc_shape acc -> 0 <= v < Z.of_nat (length acc) -> table_shape (length acc) sh -> vt_ok vt fuel ->
+  (4 * length s + 16 <= fuel)%nat ->
+  Coder.decode s L acc v false vt sh = Raise e ->
+  run_fun ce fuel decode_def [VStr s; VInt L; varr2 acc; VInt v; VBool false; v_optstr vt; v_table sh; VBool verbose]
+  = Exn e.
+Proof.
+  intros ce fuel s L acc v vt sh verbose e Hce Hvt Hacc Hv Hsh Hvtok Hfuel E.
+  pose proof (decode_run ce fuel Hce Hvt s L acc v vt sh verbose Hacc Hv Hsh Hvtok Hfuel) as H.
+  rewrite E in H. exact H.
+Qed.
+
+Print Assumptions decode_normal_gen_ok.
+Print Assumptions decode_normal_gen_raise.
